@@ -535,8 +535,33 @@ def run(ctx):
     for lo in range(0, len(cases), 4000):
         evaluate(ctx, 'C02', cases[lo:lo + 4000])
     seed_monotone_pairs(ctx, rng, 150 if ctx.quick else 3000)
+    shrink_failures(ctx)
     if not ctx.quick:
         finder_runs(ctx, rng, 40, with_region=False)
+
+
+def shrink_failures(ctx, limit=4):
+    """minimise the first failing grid of each distinct clause and put it in front, so that the replay
+    named in the VIOLATION line is small"""
+    seen, small = set(), []
+    for f in list(ctx.failures):
+        if f['kind'] != 'spec' or 'im' not in (f['case'] or {}) or 'seed2' in f['case']:
+            continue
+        clause = f['signature'].get('clause')
+        if clause in seen or len(seen) >= limit:
+            continue
+        seen.add(clause)
+        c = {k: v for k, v in f['case'].items() if k != 'pretty'}
+        try:
+            s = shrink(c, lambda x, cl=clause: cl in fails(x))
+        except Exception:
+            continue
+        n0 = len(ctx.failures)
+        evaluate(ctx, 'C02', [s], use_lean=ctx.driver_ok)
+        ctx.evaluations -= 1
+        small += ctx.failures[n0:]
+        del ctx.failures[n0:]
+    ctx.failures[:0] = small
 
 
 # ------------------------------------------------------------------------------------------------
@@ -645,8 +670,11 @@ HDR = dict(CTYPE1='RA---SIN', CTYPE2='DEC--SIN', CRVAL1=150.0, CRVAL2=-30.0, CDE
 
 def finder_sources(path, flood, seed, mask=None):
     from AegeanTools.source_finder import SourceFinder
+    import contextlib
+    import io
     sf = SourceFinder(log=NULLLOG)
-    with np.errstate(all='ignore'), warnings.catch_warnings():
+    # tqdm's progress bar goes to stderr: keep the check quiet
+    with np.errstate(all='ignore'), warnings.catch_warnings(), contextlib.redirect_stderr(io.StringIO()):
         warnings.simplefilter('ignore')
         srcs = sf.find_sources_in_image(path, innerclip=seed, outerclip=flood, rms=1.0, bkg=0.0, cores=1,
                                         doislandflux=True, mask=mask)
